@@ -11,7 +11,7 @@
    (it need not be: C10_probe_refuted). *)
 From CV Require Import Base.Tac Base.LinAlg Base.Cmp Model.C10_Conj Model.C10_ConjR
                        Proofs.C10_Kernel Proofs.C10_Exact Proofs.C10_Valid Proofs.C10_Carrier
-                       Proofs.C10_Approx Proofs.C10_Probe2 Proofs.C10_Vec Proofs.C10_Full.
+                       Proofs.C10_Approx Proofs.C10_Probe2 Proofs.C10_Vec Proofs.C10_Full Proofs.C10_Checks.
 From Coq Require Import Reals QArith Qabs Qreals.
 
 (* ------------------------------------------------------------------------------------------------- *)
@@ -463,6 +463,21 @@ Example C10_oracle_laws_satisfiable :
   /\ (forall s, 0 < s -> ex_logdet (Rmscale s P1) = INR n * ln s + ex_logdet P1)%R
   /\ (forall s, 0 < s -> ex_rank (Rmscale s P1) = n)%R.
 Proof. exact ex_laws. Qed.
+
+(* ------------------------------------------------------------------------------------------------- *)
+(* 10. what a passing correspondence case means for the theorems                                       *)
+(* ------------------------------------------------------------------------------------------------- *)
+
+(* `check_shape ... = true` (evaluated by vm_compute in every shard) says the observed shape argument of
+   numpy.random.gamma IS the shape of the exactness theorems; `check_rate ... = true` says the observed rate is within
+   relative 1e-9 of the theorems' rate for the implementation's own factor L *)
+Theorem C10_checks_sound :
+  (forall k rk bq alpha obs, check_shape k rk bq alpha obs = true -> Q2R obs = r_shape (sampler_m k rk bq) (Q2R alpha))
+  /\ (forall n P reg L Ax b beta obs_rate obs_scale, check_rate n P reg L Ax b beta obs_rate obs_scale = true ->
+        (Rabs (Q2R obs_rate - r_rate (Q2Rm L) (Q2Rv Ax) (Q2Rv b) (Q2R beta))
+         <= Q2R tol9 * Rabs (r_rate (Q2Rm L) (Q2Rv Ax) (Q2Rv b) (Q2R beta)))%R).
+Proof. exact (conj check_shape_sound check_rate_sound). Qed.
+Print Assumptions C10_checks_sound.
 
 (* ------------------------------------------------------------------------------------------------- *)
 (* non-vacuity: the hypotheses of the exactness theorems are satisfiable                              *)
